@@ -73,6 +73,18 @@ def run_one(params, with_spoofs):
          for i in range(2)]
     for a in (V, W) + tuple(A):
         k.add_actor(a.ip, a)
+    I = None
+    if params.get("insider"):
+        # another logged-in session (in both runs; it takes the slot in front of the victim's) which, in the second run, sends
+        # traffic of its own - naming its own user id - that no client would send: whatever a session does with its own slot,
+        # the neighbour observes nothing
+        I = mclient.ModelClient("10.53.2.3", (scen.SERVER_IP, 53), dom, sim.password, random.Random(rng.getrandbits(32)), qtype=qt)
+        k.add_actor(I.ip, I)
+        if not I.connect():
+            R["why"] = "model-login-failed"
+            return R
+        I.raw_login()
+        k.run(k.now + 50000)
     if not V.connect() or not W.connect():
         R["why"] = "model-login-failed"
         return R
@@ -167,6 +179,24 @@ def run_one(params, with_spoofs):
                 if srng.random() < 0.5:
                     d = struct.pack(">H", srng.randint(1, 65535)) + d[2:]
                 mc.send_raw_dgram(d)
+        elif kind in ("insider_rawbig", "insider_rawbig_z", "insider_dnsbig"):
+            if I is None:
+                return
+            n = srng.choice([4093, 4097, 5000, 9000, 20000, 44140, 60000, 65000])
+            if kind == "insider_rawbig":
+                I.send_raw_dgram(proto.raw_frame(proto.RAW_DATA, I.userid, bytes(srng.getrandbits(8) for _ in range(256)) * (n // 256) + bytes(n % 256)))
+            elif kind == "insider_rawbig_z":
+                # a well-formed one: a huge packet for the server itself
+                I.send_raw_dgram(proto.raw_frame(proto.RAW_DATA, I.userid, proto.deflate(proto.make_frame(I.tun_ip, srv_tun, 0x7777, min(n, 60000), "random", srng))))
+            else:
+                # DNS mode: a stream of final-less fragments for its own slot (up to 16 x ~150 bytes)
+                seq = srng.randrange(8)
+                for fr_ in range(16):
+                    hdr = proto.data_header(I.userid, seq, fr_, 0, 0, 0, I.datacmc)
+                    I.datacmc += 1
+                    I.query(proto.msg_data(dl, hdr, proto.BASE32.encode(bytes(srng.getrandbits(8) for _ in range(120)))))
+            spoof_log.append((k.now, kind, I.ip))
+            return
         elif kind == "rawdata":
             mc.send_raw_dgram(proto.raw_frame(proto.RAW_DATA, uid, proto.deflate(frame("10.250.0.8", srv_tun, 40))))
         elif kind == "rawping":
@@ -184,7 +214,7 @@ def run_one(params, with_spoofs):
         if with_spoofs:
             k.at(t, spoof, kind, a)
     k.run(end)
-    R.update(ok=True, k=k, srv=srv, V=V, W=W, A=A, spoofs=spoof_log, offered=offered)
+    R.update(ok=True, k=k, srv=srv, V=V, W=W, A=A, I=I, spoofs=spoof_log, offered=offered)
     return R
 
 
@@ -279,6 +309,12 @@ def scn_pair(params):
         for who, name in ((("V", "victim"), ("W", "bystander"))):
             pa = projection(RA, RA[who])
             pb = projection(RB, RB[who])
+            if RB.get("I") is not None and RB["I"].tun_ip:
+                # (what the insider sends for itself - its own, well-formed packets - legitimately reaches the server's tun)
+                import socket as _so
+                isrc = _so.inet_aton(RB["I"].tun_ip).hex()
+                pa = (pa[0], pa[1], [w for w in pa[2] if w[32:40] != isrc], pa[3])
+                pb = (pb[0], pb[1], [w for w in pb[2] if w[32:40] != isrc], pb[3])
             for part, label in zip(range(4), ("delivered-packets", "table-row", "server-tun-writes", "final-transfer-state")):
                 if part == 2 and who == "W":
                     continue
@@ -326,7 +362,7 @@ def scn_hist(params):
         if h != "running":
             out["stats"]["server_died"] = 1
             out["inconclusive"] = "server-" + h.split(":")[0]
-        v, st, kinds = authmon.mon_c04(k, H.domain, not cfg["check_ip_off"], H.offered, H.up_frames)
+        v, st, kinds = authmon.mon_c04(k, H.domain, not cfg["check_ip_off"], H.offered, H.up_frames, server_tun_ip=H.server_tun_ip)
         out["stats"].update(st)
         out["evaluations"] = sum(1 for ev in k.log if ev[1] == "recv" and ev[2] == "srv")
         for (key, what, wit) in v[:3]:
@@ -393,6 +429,9 @@ def run(ctx):
                       "victim_raw": rng.random() < 0.15, "step": rng.choice([60000, 100000, 250000]), "nticks": rng.randint(60, 140),
                       "nup": rng.randint(1, 6), "ndown": rng.randint(1, 8), "nspoof": rng.randint(5, 60),
                       "spoof_kinds": SPOOFS if rng.random() < 0.6 else rng.sample(SPOOFS, 3)})
+        if i % 5 == 2:
+            plist[-1].update(insider=True, spoof_kinds=["insider_rawbig", "insider_rawbig", "insider_rawbig_z", "insider_dnsbig"] + rng.sample(SPOOFS, 2),
+                             tun=rng.choice(["10.9.0.1/24", "10.9.0.5/28", "172.20.1.1/16", "10.9.0.1/29", "192.168.77.129/27"]))
     for i in range(nhist):
         plist.append({"kind": "history", "idx": npair + i, "seed": ctx.seed * 100000 + npair + i, "cfg": advhist.gen_cfg(rng, i + ctx.seed)})
     if ctx.replay:
